@@ -10,7 +10,8 @@ package container
 //@ spec clen(c *Container) int = sumRow(elems(c.compartments), soff(c.compartments) + c.offset, soff(c.compartments) + len(c.compartments))
 //@ spec pos(x int) bool = 0 <= x && x <= 1<<50
 // representation invariant
-//@ spec wf(c *Container) bool = c != nil && 0 <= c.offset && c.offset <= len(c.compartments) && (len(c.compartments) > 0 ==> c.offset < len(c.compartments))
+// (compartments before the read offset hold no data: checkOffset may move the offset back over them)
+//@ spec wf(c *Container) bool = c != nil && 0 <= c.offset && c.offset <= len(c.compartments) && (len(c.compartments) > 0 ==> c.offset < len(c.compartments)) && (forall k int :: soff(c.compartments) <= k && k < soff(c.compartments) + c.offset ==> len(elems(c.compartments)[k]) == 0)
 
 // rows that agree (possibly shifted) on the lengths of their entries have the same sum
 //@ lemma L-sum-shift by induction on h1 from lo1 generalizing h2: forall r1 ~[]byte, r2 ~[]byte, lo1 int, lo2 int, h1 int, h2 int :: pos(lo1) && pos(lo2) && pos(h1) && pos(h2) && lo1 <= h1 && h1 - lo1 == h2 - lo2 && (forall k int :: lo1 <= k && k < h1 ==> len(r1[k]) == len(r2[k + (lo2 - lo1)])) ==> sumRow(r1, lo1, h1) == sumRow(r2, lo2, h2)
@@ -26,6 +27,8 @@ package container
 //@   ensures length == clen(c)
 //@   loop 0 invariant c.offset <= i && i <= len(c.compartments)
 //@   loop 0 invariant length == sumRow(elems(c.compartments), soff(c.compartments) + c.offset, soff(c.compartments) + i)
+//@   loop 0 use L-sum-top(elems(c.compartments), soff(c.compartments) + c.offset, soff(c.compartments) + i + 1)
+//@   loop 0 use L-sum-empty(elems(c.compartments), soff(c.compartments) + c.offset, soff(c.compartments) + c.offset)
 //@   loop 0 decreases len(c.compartments) - i
 
 //@ func (*Container).HoldsData
@@ -34,40 +37,62 @@ package container
 //@   loop 0 decreases len(c.compartments) - i
 
 //@ func (*Container).checkOffset
-//@   requires c != nil && 0 <= c.offset
+//@   requires c != nil && 0 <= c.offset && c.offset <= len(c.compartments) && (forall k int :: soff(c.compartments) <= k && k < soff(c.compartments) + c.offset && k < soff(c.compartments) + len(c.compartments) ==> len(elems(c.compartments)[k]) == 0)
 //@   modifies c.offset
 //@   ensures wf(c)
 //@   ensures old(c.offset) < len(c.compartments) ==> c.offset == old(c.offset)
+//@   ensures old(c.offset) >= len(c.compartments) ==> c.offset == len(c.compartments) / 2
 
-// top-index unfolding of sumRow, for explicit use
+// sumRow is opaque inside function proofs; these two lemmas are its definition, for explicit use
 //@ lemma L-sum-top: forall r ~[]byte, lo int, hi int :: lo < hi ==> sumRow(r, lo, hi) == sumRow(r, lo, hi - 1) + len(r[hi-1])
+//@ lemma L-sum-empty: forall r ~[]byte, lo int, hi int :: hi <= lo ==> sumRow(r, lo, hi) == 0
 
 //@ func (*Container).Append
 //@   requires wf(c)
 //@   modifies c.compartments, elems(c.compartments)
 //@   at return assert len(c.compartments) == old(len(c.compartments)) + 1 && c.offset == old(c.offset)
+//@   at return assert forall k int :: soff(c.compartments) <= k && k < soff(c.compartments) + old(len(c.compartments)) ==> elems(c.compartments)[k] == old(elems(c.compartments))[k + (old(soff(c.compartments)) - soff(c.compartments))]
+//@   at return assert forall k int :: soff(c.compartments) <= k && k < soff(c.compartments) + c.offset ==> len(elems(c.compartments)[k]) == 0
 //@   at return assert elems(c.compartments)[soff(c.compartments) + old(len(c.compartments))] == data
 //@   at return assert forall k int :: soff(c.compartments) + c.offset <= k && k < soff(c.compartments) + old(len(c.compartments)) ==> len(elems(c.compartments)[k]) == len(old(elems(c.compartments))[k + (old(soff(c.compartments) + c.offset) - (soff(c.compartments) + c.offset))])
 //@   at return use L-sum-shift(elems(c.compartments), old(elems(c.compartments)), soff(c.compartments) + c.offset, old(soff(c.compartments) + c.offset), soff(c.compartments) + old(len(c.compartments)), old(soff(c.compartments) + len(c.compartments)))
 //@   at return assert sumRow(elems(c.compartments), soff(c.compartments) + c.offset, soff(c.compartments) + old(len(c.compartments))) == old(clen(c))
 //@   at return use L-sum-top(elems(c.compartments), soff(c.compartments) + c.offset, soff(c.compartments) + old(len(c.compartments)) + 1)
 //@   at return assert sumRow(elems(c.compartments), soff(c.compartments) + c.offset, soff(c.compartments) + old(len(c.compartments)) + 1) == old(clen(c)) + len(data)
-//@   ensures wf(c) && c.offset == old(c.offset) && len(c.compartments) == old(len(c.compartments)) + 1
+//@   ensures c.offset == old(c.offset) && len(c.compartments) == old(len(c.compartments)) + 1
+//@   ensures wf(c)
 //@   ensures clen(c) == old(clen(c)) + len(data)
 
 // ---- structural operations (representation invariant, exact element placement)
+
+// front-index unfolding of sumRow
+//@ lemma L-sum-front by induction on hi from lo: forall r ~[]byte, lo int, hi int :: lo < hi && pos(lo) && pos(hi) ==> sumRow(r, lo, hi) == len(r[lo]) + sumRow(r, lo + 1, hi)
 
 //@ func (*Container).renewCompartments
 //@   requires c != nil && 0 <= c.offset && c.offset <= len(c.compartments)
 //@   modifies c.compartments, c.offset
 //@   ensures c.offset == 4 && len(c.compartments) == old(len(c.compartments) - c.offset) + 5 && fresh(c.compartments) && soff(c.compartments) == 0
-//@   ensures forall j int :: 0 <= j && j < old(len(c.compartments) - c.offset) ==> elems(c.compartments)[5 + j] == old(elems(c.compartments)[soff(c.compartments) + c.offset + j])
-//@   ensures forall j int :: 0 <= j && j < 5 ==> elems(c.compartments)[j] == nil
+//@   ensures forall k int :: 5 <= k && k < len(c.compartments) ==> elems(c.compartments)[k] == old(elems(c.compartments))[k + (old(soff(c.compartments) + c.offset) - 5)]
+//@   ensures forall k int :: 0 <= k && k < 5 ==> elems(c.compartments)[k] == nil
+//@   at return use L-sum-shift(elems(c.compartments), old(elems(c.compartments)), 5, old(soff(c.compartments) + c.offset), len(c.compartments), old(soff(c.compartments) + len(c.compartments)))
+//@   at return assert sumRow(elems(c.compartments), 5, len(c.compartments)) == old(clen(c))
+//@   at return use L-sum-front(elems(c.compartments), 4, len(c.compartments))
+//@   ensures clen(c) == old(clen(c))
 
 //@ func (*Container).Prepend
 //@   requires wf(c)
 //@   modifies c.compartments, c.offset, elems(c.compartments)
-//@   ensures wf(c) && elems(c.compartments)[soff(c.compartments) + c.offset] == data
+//@   ghost var mid ~[]byte = elems(c.compartments)
+//@   at store#1 ghost mid = elems(c.compartments)
+//@   at store#1 assert 0 <= c.offset && c.offset < len(c.compartments)
+//@   at store#1 use L-sum-shift(mid, old(elems(c.compartments)), soff(c.compartments) + c.offset + 1, old(soff(c.compartments) + c.offset), soff(c.compartments) + len(c.compartments), old(soff(c.compartments) + len(c.compartments)))
+//@   at store#1 assert sumRow(mid, soff(c.compartments) + c.offset + 1, soff(c.compartments) + len(c.compartments)) == old(clen(c))
+//@   at return use L-sum-shift(elems(c.compartments), mid, soff(c.compartments) + c.offset + 1, soff(c.compartments) + c.offset + 1, soff(c.compartments) + len(c.compartments), soff(c.compartments) + len(c.compartments))
+//@   at return assert sumRow(elems(c.compartments), soff(c.compartments) + c.offset + 1, soff(c.compartments) + len(c.compartments)) == old(clen(c))
+//@   at return use L-sum-front(elems(c.compartments), soff(c.compartments) + c.offset, soff(c.compartments) + len(c.compartments))
+//@   ensures elems(c.compartments)[soff(c.compartments) + c.offset] == data
+//@   ensures wf(c)
+//@   ensures clen(c) == old(clen(c)) + len(data)
 
 //@ func (*Container).Replace
 //@   requires wf(c)
@@ -76,20 +101,53 @@ package container
 
 //@ func (*Container).Peek
 //@   requires wf(c)
+//@   at return#1 use L-sum-empty(elems(c.compartments), soff(c.compartments) + c.offset, soff(c.compartments) + len(c.compartments))
 //@   ensures n <= 0 ==> r0 == nil
-//@   ensures n > 0 ==> len(r0) <= n
+//@   ensures n > 0 ==> len(r0) == n || (len(r0) == clen(c) && clen(c) < n)
 //@   ensures elems(c.compartments) == old(elems(c.compartments))
 //@   loop 0 invariant c.offset <= i && i <= len(c.compartments)
-//@   loop 0 invariant 0 <= n && n <= old(n) && copySlice == slice[n:] && len(slice) == old(n) && cap(slice) == old(n) && fresh(slice)
+//@   loop 0 invariant 0 <= n && n < old(n) && copySlice == slice[n:] && len(slice) == old(n) && cap(slice) == old(n) && fresh(slice)
 //@   loop 0 invariant elems(c.compartments) == old(elems(c.compartments))
+//@   loop 0 invariant n == sumRow(elems(c.compartments), soff(c.compartments) + c.offset, soff(c.compartments) + i)
+//@   loop 0 use L-sum-top(elems(c.compartments), soff(c.compartments) + c.offset, soff(c.compartments) + i + 1)
+//@   loop 0 use L-sum-empty(elems(c.compartments), soff(c.compartments) + c.offset, soff(c.compartments) + c.offset)
 //@   loop 0 decreases len(c.compartments) - i
 
+// a range of empty slices sums to zero
+//@ lemma L-sum-zero by induction on hi from lo: forall r ~[]byte, lo int, hi int :: (forall k int :: lo <= k && k < hi ==> len(r[k]) == 0) ==> sumRow(r, lo, hi) == 0
+
+// skip consumes n bytes from the front (or everything, if fewer are held)
 //@ func (*Container).skip
 //@   requires wf(c) && n >= 0
 //@   modifies c.offset, elems(c.compartments)
+//@   ghost var row0 ~[]byte = elems(c.compartments)
 //@   ensures wf(c)
-//@   loop 0 invariant old(c.offset) <= i && i <= len(c.compartments) && n >= 0 && 0 <= c.offset && c.offset <= i
+//@   ensures clen(c) == old(clen(c)) - n || (clen(c) == 0 && old(clen(c)) < n)
+//@   loop 0 invariant old(c.offset) <= i && i <= len(c.compartments) && n >= 0 && n <= old(n) && c.offset == i
+//@   loop 0 invariant forall k int :: soff(c.compartments) <= k && k < soff(c.compartments) + i ==> len(elems(c.compartments)[k]) == 0
+//@   loop 0 invariant forall k int :: soff(c.compartments) + i <= k && k < soff(c.compartments) + len(c.compartments) ==> elems(c.compartments)[k] == row0[k]
+//@   loop 0 invariant sumRow(row0, soff(c.compartments) + i, soff(c.compartments) + len(c.compartments)) == old(clen(c)) - (old(n) - n)
+//@   loop 0 use L-sum-front(row0, soff(c.compartments) + i, soff(c.compartments) + len(c.compartments))
 //@   loop 0 decreases len(c.compartments) - i
+//@   loop 0 use L-sum-empty(row0, soff(c.compartments) + i, soff(c.compartments) + len(c.compartments))
+//@   loop 0 use L-sum-empty(row0, soff(c.compartments) + i + 1, soff(c.compartments) + len(c.compartments))
+//@   at return#0 assert forall k int :: soff(c.compartments) + c.offset <= k && k < soff(c.compartments) + len(c.compartments) ==> len(elems(c.compartments)[k]) == 0
+//@   at return#0 use L-sum-zero(elems(c.compartments), soff(c.compartments) + c.offset, soff(c.compartments) + len(c.compartments))
+//@   at return#0 assert clen(c) == 0 && old(clen(c)) == old(n) - n
+//@   at return#1 assert c.offset == i && len(elems(c.compartments)[soff(c.compartments) + i]) == len(row0[soff(c.compartments) + i]) - n
+//@   at return#1 assert forall k int :: soff(c.compartments) + i + 1 <= k && k < soff(c.compartments) + len(c.compartments) ==> len(elems(c.compartments)[k]) == len(row0[k + ((soff(c.compartments) + i + 1) - (soff(c.compartments) + i + 1))])
+//@   at return#1 use L-sum-shift(elems(c.compartments), row0, soff(c.compartments) + i + 1, soff(c.compartments) + i + 1, soff(c.compartments) + len(c.compartments), soff(c.compartments) + len(c.compartments))
+//@   at return#1 assert sumRow(elems(c.compartments), soff(c.compartments) + i + 1, soff(c.compartments) + len(c.compartments)) == sumRow(row0, soff(c.compartments) + i + 1, soff(c.compartments) + len(c.compartments))
+//@   at return#1 use L-sum-front(elems(c.compartments), soff(c.compartments) + i, soff(c.compartments) + len(c.compartments))
+//@   at return#1 assert clen(c) == old(clen(c)) - old(n)
+//@   at return#2 assert i + 1 < len(c.compartments) ==> c.offset == i + 1
+//@   at return#2 assert i + 1 >= len(c.compartments) ==> c.offset == len(c.compartments) / 2
+//@   at return#2 assert forall k int :: soff(c.compartments) + i + 1 <= k && k < soff(c.compartments) + len(c.compartments) ==> len(elems(c.compartments)[k]) == len(row0[k + ((soff(c.compartments) + i + 1) - (soff(c.compartments) + i + 1))])
+//@   at return#2 use L-sum-shift(elems(c.compartments), row0, soff(c.compartments) + i + 1, soff(c.compartments) + i + 1, soff(c.compartments) + len(c.compartments), soff(c.compartments) + len(c.compartments))
+//@   at return#2 assert sumRow(elems(c.compartments), soff(c.compartments) + i + 1, soff(c.compartments) + len(c.compartments)) == sumRow(row0, soff(c.compartments) + i + 1, soff(c.compartments) + len(c.compartments))
+//@   at return#2 assert i + 1 >= len(c.compartments) ==> (forall k int :: soff(c.compartments) + c.offset <= k && k < soff(c.compartments) + len(c.compartments) ==> len(elems(c.compartments)[k]) == 0)
+//@   at return#2 use L-sum-zero(elems(c.compartments), soff(c.compartments) + c.offset, soff(c.compartments) + len(c.compartments))
+//@   at return#2 assert clen(c) == old(clen(c)) - old(n)
 
 //@ func (*Container).Get
 //@   requires wf(c)
